@@ -129,8 +129,11 @@ def cmd_tranche(a):
                 res = None
         if res is None:
             res = {"cfg": v["cfg"], "ops": v["ops"], "violation": vio}
-        core.write_replay(path, mod.PROP_ID, a.mode, a.seed, v["idx"], res,
-                          extra={"original_steps": len(v["ops"])})
+        extra = {"original_steps": len(v["ops"])}
+        if vio["oracle"] == "hang":
+            # the operations of a run that never returned are unknown: replay regenerates the run
+            extra["regenerate"] = {"seed": a.seed, "idx": v["idx"], "tier": a.tier}
+        core.write_replay(path, mod.PROP_ID, a.mode, a.seed, v["idx"], res, extra=extra)
         reports.append({"oracle": vio["oracle"], "replay": path, "idx": v["idx"], "mode": a.mode,
                         "steps": len(res["ops"]), "detail": res["violation"].get("detail")})
     merged["reports"] = reports
@@ -241,7 +244,13 @@ def cmd_replay(a):
             return 1
         print("no violation reproduced")
         return 0
-    r = core.execute(mod.RunClass, doc["cfg"], ops=doc["ops"], want_log=a.log)
+    if doc.get("regenerate"):
+        g = doc["regenerate"]
+        rng = core.run_rng(g["seed"], mod.PROP_ID, g["idx"])
+        cfg = mod.gen_config(rng, g["tier"])
+        r = core.execute(mod.RunClass, cfg, rng=rng, max_steps=cfg["steps"], want_log=a.log)
+    else:
+        r = core.execute(mod.RunClass, doc["cfg"], ops=doc["ops"], want_log=a.log)
     if a.log:
         for line in r["log"]:
             print(line)
@@ -442,6 +451,16 @@ def finish_check(pid, seed, tier, parts, wall, sizes):
     for r in reports:
         if r["idx"] < 0:
             verified.append(r)
+            continue
+        if r["oracle"] == "hang":
+            # a hang is confirmed by the replay itself not finishing within the limit
+            try:
+                rc = subprocess.call([sys.executable, os.path.abspath(__file__), "replay", r["replay"]],
+                                     stdout=subprocess.DEVNULL, cwd=VERIF, timeout=2400)
+                print("NOTE: run %s exceeded the wall-clock limits in the batch but completed on replay: "
+                      "treated as load, not as a hang" % r["idx"])
+            except subprocess.TimeoutExpired:
+                verified.append(r)
             continue
         rc = subprocess.call([sys.executable, os.path.abspath(__file__), "replay", r["replay"]],
                              stdout=subprocess.DEVNULL, cwd=VERIF)
